@@ -377,6 +377,18 @@ def rule_M8_weak(m, rep, rid='M8w'):
     sts = store_sites(T, m.f_written)
     bad = [(b_, i_, v) for b_, i_, v in sts if v != ('const', 'usize', '0', None)]
     rep.ob(rid, 'flush-only-resets', not bad, m.flush.where(), 'flush stores only 0 to `%s`' % m.f_written if not bad else 'flush stores %s to %s' % ([fmt(v) for _, _, v in bad], m.f_written))
+    # ... and does reset: every way through flush() either passes a store of 0 or leaves over the Err edge of the inner flush
+    # (write relies on `written == 0` after a flush that returned Ok)
+    zb = set(b_ for b_, i_, v in sts if v == ('const', 'usize', '0', None))
+    errs = set()
+    for fbi in W.call_blocks(body, '<' + W.BUFW + ' as std::io::Write>::flush'):
+        ok_e, err_e, _ = W.outcomes(T, fbi)
+        errs |= set(err_e)
+    okr = C.must_pass(body, 0, set(C.exits(body, False)), zb | errs)
+    rep.ob(rid, 'flush-ok-means-reset', okr, m.flush.where(), 'every return of flush() other than a failed inner flush has reset `%s`' % m.f_written if okr else
+           'flush() can return without resetting `%s` (and without a failed inner flush): write() goes on counting from a stale value' % m.f_written)
+    # the same for a flush that write() performs itself
+    W.rule_M3(m, rep, only=('successful-flush-resets-count',))
 
 
 _VIEWS = ('core::str::as_bytes', 'alloc::string::String::as_str', 'alloc::string::String::as_bytes', 'alloc::vec::Vec::as_slice',
